@@ -444,6 +444,11 @@ def rules(rep, facts):
     from .shared import presized_from_hint
     R8 = rep.rule('C04/R8', 'no allocation is sized by an untrusted size_hint() (a huge claim aborts with "capacity overflow")', floor=1)
     presized_from_hint(rep, R8, facts)
+    if 'parse' in set(facts.crates.get('toml_edit', {}).get('features', [])):
+        r9_counter_balanced(rep, facts, facts.config)
+        if facts.config == 'default':
+            from .core import Facts
+            r9_counter_balanced(rep, Facts('unbounded'), 'unbounded')
     # R2: the structural guards the allowlist reasons rely on
     from .rules_c12 import r3b_digit
     from .rules_c15 import r4_rendering
@@ -462,6 +467,48 @@ def rules(rep, facts):
         rep.relabel('C12/R4', 'C04/R2')
     rep.rules['C04/R2']['floor'] = 6
     rep.notes.append('R2 (guard structure behind allowlist reasons) is discharged by C15/R4 (rendering clamps), C12/R7 (no constructor builds a date-time shape for which Datetime::type_name is `unreachable!`), C14/R1 (every span is start <= end by construction: `span.end - span.start` when an error is rendered), C02/R5 (SCALE.get / truncation), C12/R3b + C11/R3 (ASCII digits before `as u8 - b\'0\'`), C01/R3 (separated(1..) behind "at least one key").')
+
+
+def r9_counter_balanced(rep, facts, label):
+    """the depth counter's decrement is overflow-checked: it is safe only while every exit undoes an enter of the same build"""
+    R = rep.rule('C04/R9', 'in every configuration an `enter` followed by an `exit` of the nesting counter leaves it where it was and never takes it below zero (an overflow-checked '
+                 'subtraction panics): evaluated from the counter values 0, 1 and 5; where feature "unbounded" compiles the counter out, both functions leave it alone', floor=3)
+    from .den import Evaluator, FxInterp, Unanalysable
+    Pp = 'toml_edit::parser::prelude::RecursionCheck::'
+    if not (facts.has_body(Pp + 'enter') and facts.has_body(Pp + 'exit')):
+        rep.incomplete(R, f'{label}|RecursionCheck', '`RecursionCheck::enter` / `exit` not found')
+        return
+    be, bx = facts.body(Pp + 'enter'), facts.body(Pp + 'exit')
+    is_err = lambda r: isinstance(r, tuple) and r and r[0] == 'ctor' and r[1].endswith('Result::Err')
+    ev = Evaluator(facts)
+
+    def run(b, c):
+        it = FxInterp(ev)
+        pn = [p['name'] for p in b.get('params', []) if p.get('k') == 'p_bind']
+        env = {pn[0]: ('self',), '.current': c, '@assign': {}}
+        try:
+            r = it.run_body(b, env)
+        except Unanalysable:
+            raise
+        except Exception as ex:
+            r = getattr(ex, 'v', None)
+            if r is None:
+                raise
+        return r, env.get('.current')
+    for c in (0, 1, 5):
+        key = f'{label}|current = {c}'
+        try:
+            r, mid = run(be, c)
+            if is_err(r):
+                rep.ok(R, key, f'enter refuses at {c}', facts.loc(be))
+                continue
+            _, after = run(bx, mid)
+        except Unanalysable as e:
+            rep.incomplete(R, key, f'cannot evaluate enter / exit: {e}', facts.loc(bx))
+            continue
+        rep.check(R, key, isinstance(mid, int) and isinstance(after, int) and mid >= c and after == c, f'{c} -> {mid} -> {after}',
+                  f'in configuration `{label}` the nesting counter goes {c} -> {mid} (enter) -> {after} (exit): exit does not undo what enter did'
+                  + (', and the overflow-checked `-= 1` panics at zero' if isinstance(after, int) and after < 0 else ''), facts.loc(bx))
 
 
 def run(tier):
